@@ -2,6 +2,7 @@ package props
 
 import (
 	"go/ast"
+	"go/token"
 	"go/types"
 
 	"verif/engine/core"
@@ -20,6 +21,7 @@ func eventSendsNotDroppable(c *core.Ctx, rule string, floor int) {
 		return
 	}
 	c.Floor(rule, floor)
+	ended := endedChannels(c)
 	for _, f := range p.FuncsIn(srv) {
 		if f.Decl.Body == nil {
 			continue
@@ -46,10 +48,26 @@ func eventSendsNotDroppable(c *core.Ctx, rule string, floor int) {
 				return true
 			}
 			c.Analysed(f)
-			construct := f.Name() + " sends " + core.ExprString(ss.Value) + " to the FSM"
+			// a helper that forwards its parameter: the events are what its callers pass
+			var constructs []string
+			var positions []token.Pos
+			if isParamExpr(f, ss.Value) {
+				for _, cs := range callSitesOf(p, f) {
+					if len(cs.call.Args) == 1 {
+						constructs = append(constructs, cs.f.Name()+" sends "+core.ExprString(cs.call.Args[0])+" to the FSM (through "+f.Decl.Name.Name+")")
+						positions = append(positions, cs.call.Pos())
+					}
+				}
+			}
+			if len(constructs) == 0 {
+				constructs = []string{f.Name() + " sends " + core.ExprString(ss.Value) + " to the FSM"}
+				positions = []token.Pos{ss.Pos()}
+			}
 			si, inSel := owner[nd]
 			if !inSel {
-				c.Hold(rule, construct, ss.Pos(), "plain blocking send")
+				for i := range constructs {
+					c.Hold(rule, constructs[i], positions[i], "plain blocking send")
+				}
 				return true
 			}
 			why := ""
@@ -66,8 +84,14 @@ func eventSendsNotDroppable(c *core.Ctx, rule string, floor int) {
 					why = "the select gives up after a timer (" + core.ExprString(commChan(cc.Comm)) + ")"
 					break
 				}
+				if ch := commChan(cc.Comm); ch == nil || !ended[core.FieldOf(f.Pkg, ch)] {
+					// some other alternative: not decidable here, recorded
+					continue
+				}
 			}
-			c.Check(why == "", rule, construct, ss.Pos(), why+": when the FSM goroutine is not parked in its event loop at that instant (it is processing a message or writing to the peer) the event is dropped silently; a stop that is dropped leaves the session Established with its routes, registrations and contributing ASN in place after the peer was disposed")
+			for i := range constructs {
+				c.Check(why == "", rule, constructs[i], positions[i], why+": when the FSM goroutine is not parked in its event loop at that instant (it is processing a message or writing to the peer) the event is dropped silently; a stop that is dropped leaves the session Established with its routes, registrations and contributing ASN in place after the peer was disposed")
+			}
 			return true
 		})
 	}
@@ -110,4 +134,117 @@ func isTimerRecv(f *core.Fn, s ast.Stmt) bool {
 		}
 	}
 	return false
+}
+
+// endedChannels: channel fields of FSM that signal "this FSM no longer processes events": every close() of the field sits
+// in a function that is only ever invoked through a defer in FSM.run.
+func endedChannels(c *core.Ctx) map[*types.Var]bool {
+	p := c.P
+	out := map[*types.Var]bool{}
+	run := p.Func(srv + ".(*FSM).run")
+	if run == nil {
+		return out
+	}
+	closers := map[*types.Var][]*core.Fn{}
+	for _, f := range p.FuncsIn(srv) {
+		if f.Decl.Body == nil || isTestFn(p, f) {
+			continue
+		}
+		ast.Inspect(f.Decl.Body, func(n ast.Node) bool {
+			call, ok := n.(*ast.CallExpr)
+			if !ok || len(call.Args) != 1 {
+				return true
+			}
+			if id, ok := call.Fun.(*ast.Ident); !ok || id.Name != "close" {
+				return true
+			}
+			if fv := core.FieldOf(f.Pkg, call.Args[0]); fv != nil && ownerName(fv) == "FSM" {
+				closers[fv] = append(closers[fv], f)
+			}
+			return true
+		})
+	}
+	deferredInRun := func(g *core.Fn) bool {
+		sites := callSitesOf(p, g)
+		if len(sites) == 0 {
+			return false
+		}
+		for _, s := range sites {
+			if s.f != run {
+				return false
+			}
+			isDefer := false
+			for _, anc := range core.PathTo(run.Decl.Body, s.call) {
+				if d, ok := anc.(*ast.DeferStmt); ok && d.Call == s.call {
+					isDefer = true
+				}
+			}
+			if !isDefer {
+				return false
+			}
+		}
+		return true
+	}
+	for fv, fs := range closers {
+		ok := true
+		for _, f := range fs {
+			if !deferredInRun(f) {
+				ok = false
+			}
+		}
+		if ok {
+			out[fv] = true
+		}
+	}
+	return out
+}
+
+// deliveringSend: cfg-node predicate for "the event is handed to the FSM, or the FSM has ended": a plain send on
+// FSM.eventCh, or such a send in a select whose every other alternative is a receive from an ended-channel.
+func deliveringSend(c *core.Ctx, f *core.Fn) func(ast.Node) bool {
+	p := c.P
+	evc := p.Field(srv, "FSM", "eventCh")
+	ended := endedChannels(c)
+	okSel := map[ast.Node]bool{}
+	inSel := map[ast.Node]bool{}
+	ast.Inspect(f.Decl.Body, func(nd ast.Node) bool {
+		sel, ok := nd.(*ast.SelectStmt)
+		if !ok {
+			return true
+		}
+		for _, cl := range sel.Body.List {
+			cc := cl.(*ast.CommClause)
+			if cc.Comm == nil {
+				continue
+			}
+			inSel[cc.Comm] = true
+			if _, isSend := cc.Comm.(*ast.SendStmt); !isSend {
+				continue
+			}
+			good := true
+			for _, other := range sel.Body.List {
+				oc := other.(*ast.CommClause)
+				if oc == cc {
+					continue
+				}
+				if oc.Comm == nil {
+					good = false
+					break
+				}
+				ch := commChan(oc.Comm)
+				if ch == nil || !ended[core.FieldOf(f.Pkg, ch)] {
+					good = false
+				}
+			}
+			okSel[cc.Comm] = good
+		}
+		return true
+	})
+	return func(nd ast.Node) bool {
+		ss, ok := nd.(*ast.SendStmt)
+		if !ok || evc == nil || core.FieldOf(f.Pkg, ss.Chan) != evc {
+			return false
+		}
+		return !inSel[nd] || okSel[nd]
+	}
 }
